@@ -596,10 +596,11 @@ func lookupKeyOf(cond ssa.Value) string {
 
 // ---------------------------------------------------------------- clients
 type flagInfo struct {
-	T      *types.Named
-	field  string
-	setter map[*ssa.Function]bool
-	getter map[*ssa.Function]bool
+	T        *types.Named
+	field    string
+	setter   map[*ssa.Function]bool
+	getter   map[*ssa.Function]bool
+	inHelper bool // (re-entrancy guard of write)
 }
 
 // flagWrite: does `in` write the flag, and which constant?
@@ -628,6 +629,16 @@ func (fi *flagInfo) write(in ssa.Instruction) (val string, ok bool) {
 		}
 		if sc := ir.StaticCallee(x); sc != nil && fi.setter[sc] && len(x.Call.Args) == 2 {
 			return constBool(x.Call.Args[1]), true
+		}
+		// a straight-line helper that writes the flag (markClosed(): setState(…); setInitialized(false))
+		if sc := ir.StaticCallee(x); sc != nil && ir.LibraryFuncs[sc] && len(sc.Blocks) == 1 && !fi.inHelper {
+			fi.inHelper = true
+			defer func() { fi.inHelper = false }()
+			for _, in2 := range sc.Blocks[0].Instrs {
+				if v, ok := fi.write(in2); ok {
+					return v, true
+				}
+			}
 		}
 	}
 	return "", false
@@ -943,6 +954,16 @@ func c16Typestate(c *Ctx, T *types.Named, fi *flagInfo, reachesSend func(ssa.Cal
 						closeCall = in
 					} else if sc := ir.StaticCallee(call); sc != nil && sc.Name() == cn && sc.Signature.Recv() != nil {
 						closeCall = in
+					} else if sc != nil && c.P.IsLib(sc) && len(sc.Blocks) == 1 {
+						// a straight-line helper that closes the transport (closeTransport())
+						ir.EachCall(sc, func(ic ssa.CallInstruction) {
+							icc := ic.Common()
+							if icc.IsInvoke() && icc.Method.Name() == cn {
+								closeCall = in
+							} else if isc := ir.StaticCallee(ic); isc != nil && isc.Name() == cn && isc.Signature.Recv() != nil {
+								closeCall = in
+							}
+						})
 					}
 				}
 			})
